@@ -136,10 +136,16 @@ def _work(job: t.Tuple[t.Any, ...]) -> evid.Local:
                 "\u200b", "\u200d", "\u0301", "\ufe0f", "\u00ad", "\x85", "\x1c", "\x0b", "\x0c", "\uff1d", "\uff1a", "\uff08", "\U0001d7d8", "\U0001d44e"]
         tpls = ["{c}=x", "a{c}=x", "{c}a=x", "1.2{c}=x", "1.{c}=x", "{c}.2=x", "1{c}2.3=x", "a;{c}=x", "a;b{c}=x", "a{c};b=x", "(a:{c}:=x)", "(a:b{c}:=x)", "(:1.2{c}:=x)",
                 "(a:1.{c}.3:=x)", "(a{c}:dn:=x)", "(a:dn{c}:=x)", "(a:d{c}n:=x)", "{c}(a=x)", "(a=x){c}", "({c}a=x)", "(&{c}(a=x))", "(!(a=x){c})", "(a=x{c})", "(a=*{c}*)", "(a~{c}=x)", "(a{c}>=x)"]
-        for c in reps:
+        tpls += ["(a={c})x", "(a={c}{c})x", "(a={c}))", "a={c})", "(a={c})(b=c)", "(&(a={c})(b=c))x", "(a=\\zz{c})", "(a=b*\\z{c})", "(a={c}*\\5)"]
+        for c in reps + ["\u00e9", "\u2603", "\U0001F600"]:
             for tpl in tpls:
                 _rec(loc, tpl.format(c=c))
                 _rec(loc, tpl.format(c=c + c))
+    elif fam == "escapes":
+        # values whose decoded octets themselves look like escapes (double unescaping), in every item form
+        for v in ["\\5c5c41", "\\5c41", "\\5c5c", "\\5C2a", "\\5c\\5c28", "\\5c5c5c5c", "\\5c2A\\5c"]:
+            for tpl in ["(cn={v})", "(cn={v}*)", "(cn=*{v})", "(cn=a*{v}*b)", "(cn={v}*{v})", "(cn~={v})", "(cn:dn:1.2:={v})", "(&(cn={v}*)(o=*{v}*))"]:
+                _rec(loc, tpl.format(v=v))
     elif fam == "surrogates":
         for bad in ["\ud800", "\udc80", "\udcff", "\udfff"]:
             for tpl in ["{}=a", "a={}", "({}=a)", "(a={})", "(a:{}:=b)", "(&(a=b)({}=c))", "a=\\{}", "{}"]:
@@ -184,6 +190,7 @@ def run(ctx: evid.Ctx) -> None:
         jobs += [("nest", op, 401 + a, 401 + b, stepn) for a, b in par.split(4600, 16)]
     jobs.append(("surrogates",))
     jobs.append(("unicode",))
+    jobs.append(("escapes",))
     for loc in par.pmap(_work, jobs, ctx.seed):
         evid.absorb(ctx, loc)
     ctx.counters["evaluations"] = ctx.counters.get("states", 0)
